@@ -28,6 +28,7 @@ func init() {
 		clauses: []string{CPoisoned, CRootCause, CContinued, CExecTwice, CBadExec, CProvSingle, CGroupMultiset, CMustRunMissing, CZeroRequired, CVerdictInvoke, CSpuriousCycle},
 		nt:      func(l map[string]bool) bool { return l["retry-after-fault"] || l["failure-beside-success"] },
 		valid:   true,
+		deep:    4,
 		assume:  []string{"a panic escaping Invoke (RecoverFromPanics off) is caught by the harness's own recover()"},
 	}.register()
 
@@ -54,6 +55,7 @@ func init() {
 			return k
 		},
 		clauses: []string{CRootCause, CErrIdentity, CErrClass, CSpuriousCycle, CMissedCycleInvoke, CContinued},
+		deep:    6,
 		risky:   "run", // in-process; if a worker dies the driver reports the in-flight case
 		nt: func(l map[string]bool) bool {
 			return l["user-failure"] && (l["fail-depth>=3"] || l["fail-through-group"] || l["fail-cross-scope"])
